@@ -11,7 +11,7 @@ os.environ.setdefault('PYTHONHASHSEED', '0')
 sys.path.insert(0, '/repo/src')
 sys.path.insert(0, os.path.dirname(os.path.abspath(__file__)))
 
-SERVER = {'C03', 'C04', 'C05', 'C06', 'C11', 'C16'}
+SERVER = {'C03', 'C04', 'C05', 'C06', 'C08', 'C09', 'C11', 'C16'}
 MODS = {'C13': 'prop_c13', 'C17': 'prop_c17'}
 
 
